@@ -267,19 +267,11 @@ def compare(full, legs, pauses):
 def classify(spec, probs, pauses):
     """stable key naming the input class: which feature of the network is involved"""
     key, msg = probs[0]
-    feats = []
-    kinds = set(c["kind"] for c in spec["controls"])
     if spec.get("isolation"):
         iso = spec["isolation"]
         if any(iso["close"] <= p < iso["open"] for p in pauses):
-            feats.append("isolated-at-pause")
-    if "level" in kinds:
-        feats.append("tank-level-control")
-    if "rule_level" in kinds or "rule_time" in kinds:
-        feats.append("rules")
-    if spec["leaks"]:
-        feats.append("leak")
-    return key + ("-" + "-".join(feats) if feats else ""), msg
+            return key + "-isolated-at-pause", msg
+    return key, msg
 
 
 class C10(Check):
@@ -329,6 +321,9 @@ class C10(Check):
         # pause times on the hydraulic grid, 0 <= t < duration, at least one step left after the last
         pts = sorted(rng.sample(range(0, nsteps), k))
         pts = [p * hyd for p in pts if p * hyd + hyd <= duration]
+        if getattr(self, "repaired", False) and pts and rng.random() < 0.2:
+            # with the repaired run_sim a part that has nothing left to do is a no-op: pause on the last step / twice at the same time
+            pts = sorted(pts + [rng.choice([pts[-1], (duration // hyd) * hyd])])
         return pts
 
     def _run_sched_paused(self, ctx, failures, broken, cases, tag):
@@ -462,10 +457,47 @@ class C10(Check):
                 continue
             self._run_net_case(ctx, wntr, spec, pauses, rng.random() < 0.5, failures, tag)
 
+    def _completed_run_probe(self, ctx, failures, broken):
+        """a run that is already complete must be left alone when it is 'continued' (pause on the last hydraulic step
+        before an off-grid duration; run_sim called again without a new duration).  Returns True when the
+        implementation behaves like the (repaired) model."""
+        wntr = vlib.import_wntr()
+        ok = True
+        cases = [({"hyd": 3600, "rule": 360, "report": 0, "duration": 5000, "start_clock": 0, "controls": [], "init": {}}, [3600]),
+                 ({"hyd": 1800, "rule": 600, "report": 0, "duration": 7200, "start_clock": 0, "init": {"0": 1},
+                   "controls": [{"id": 0, "kind": "P", "prio": 3, "cond": ("sim", "eq", 2000, 0), "then": [(0, 0)], "else": []}]}, [7200, 7200])]
+        lines = []
+        for s, pauses in cases:
+            lines += schedgen.driver_lines(schedgen.fix_tod_first_day(s), pauses + [s["duration"]])
+        out = [l for l in vlib.lean_run("Drivers/SchedDriver.lean", "\n".join(lines) + "\n") if l.startswith(("row ", "end ")) or l == "bad-op"]
+        mruns = schedgen.parse_driver_runs(out, sum(len(p) + 1 for _, p in cases))
+        pos = 0
+        for s, pauses in cases:
+            k = len(pauses) + 1
+            model_rows = [r for run in mruns[pos:pos + k] for r in run[0]]
+            pos += k
+            wn = schedgen.build_wn(wntr, s)
+            legs, _ = schedgen.run_impl_legs(wntr, wn, pauses + [s["duration"]], False)
+            cat = [r for (rows, _) in legs for r in rows]
+            wn2 = schedgen.build_wn(wntr, s)
+            full = schedgen.run_impl_legs(wntr, wn2, [s["duration"]], False)[0][0][0]
+            ctx.case(("completed-run", json.dumps(s, sort_keys=True), tuple(pauses)), True)
+            ctx.count("completed-run-probe")
+            if model_rows != full:
+                broken.append(Broken("correspondence", "Sched.lean paused runSim on a completed run", "schedule %s pauses %s: model rows %s, uninterrupted implementation %s" % (json.dumps(s), pauses, model_rows, full)))
+            if cat != full:
+                ok = False
+                failures.append(Failure("restart-extra-step-beyond-duration",
+                                        "continuing a run that is already complete adds a step: uninterrupted times %s, paused (pauses %s) %s" % ([t for t, _ in full], pauses, [t for t, _ in cat]),
+                                        {"schedule": s, "pauses": pauses, "pickle": False}))
+        ctx.cov["completed_run_left_alone"] = ok
+        return ok
+
     def correspondence(self, ctx):
         failures, broken = [], []
         wntr = vlib.import_wntr()
         rng = ctx.rng
+        self.repaired = self._completed_run_probe(ctx, failures, broken)
         # corpus first
         for fn, j in vlib.corpus_items("C10"):
             if "network" in j:
